@@ -312,6 +312,20 @@ func c20PrecompileInputs(c *mc.Ctx) pcWork {
 			n = 256
 		}
 		w.Input = gen.PatternBytes(int(n))
+		if addr == 0x66 && w.Size >= 160 {
+			// (bytes,bytes) whose value length word announces more than the payload carries
+			if k := c.Deviate(6); k > 0 {
+				announced := []uint64{1 << 20, 1 << 24, 1 << 26, 1 << 32, 1 << 40}[k-1]
+				p := make([]byte, 160)
+				copy(p[0:], word32(64))
+				copy(p[32:], word32(128))
+				copy(p[64:], word32(5))
+				copy(p[128:], word32(announced))
+				w.Input = p
+				w.Name = fmt.Sprintf("precompile 0x66 size=%d value length word=%d", w.Size, announced)
+				return w
+			}
+		}
 		if addr == 0x66 && w.Size >= 128 {
 			// well-formed (bytes,bytes): key = 5 bytes, value = everything else
 			p := make([]byte, 160)
